@@ -57,15 +57,16 @@ def check(rep, F, tier, replay=None):
         fn0 = F.fns[s0.fid]
         where = ", ".join(sorted({facts.loc_str(s.loc, F.fns[s.fid]) for s in lst}))
         what = {"op": "raw integer operator", "cast": "lossy integer cast", "lossy-call": "saturating / wrapping / magnitude call", "discard": "arithmetic error handled locally", "i64-reader": "i64-narrowing CBOR reader"}[kind]
-        e = tab.get(g)
+        from e1_panicpath import allow_lookup as _al
+        e, n_s = _al(tab, by, g)
         if kind == "i64-reader":
             rep.violation("E3", "%s|%s|%s" % g, "%s calls cbor_event's negative_integer(), which narrows a CBOR nint to i64: values in -2^64..-2^63-1 decode to a different number (use read_nint) [%s]" % (fk, where), {"function": fk})
             continue
         if e is None:
             rep.violation("E3", "%s|%s|%s" % g, "unaudited %s in %s: %s at %s (%s) - in release builds this wraps / truncates / saturates silently instead of failing" % (what, fk, det, where, s0.note), {"function": fk, "file": fn0["file"]})
             continue
-        if len(lst) > e["count"]:
-            rep.violation("E3", "%s|%s|%s#>%d" % (fk, kind, det, e["count"]), "%d x %s (%s) in %s, only %d audited [%s]" % (len(lst), what, det, fk, e["count"], where), {})
+        if n_s > e["count"]:
+            rep.violation("E3", "%s|%s|%s#>%d" % (fk, kind, det, e["count"]), "%d x %s (%s) in %s, only %d audited [%s]" % (n_s, what, det, fk, e["count"], where), {})
             continue
         if e["disposition"] == "finding":
             rep.violation("E3", "%s|%s|%s" % g, "%s [%s]" % (e["reason"], where), {"function": fk})
